@@ -44,8 +44,12 @@ func applyMod(lm message.Message, p *codec.Packet, m Mod) (ok bool, err error) {
 				return true, err
 			}
 			if q > 0 && p.QoS == 0 {
-				c.SetPacketID(uint16(m.V%65535) + 1)
-				p.PacketID = uint16(m.V%65535) + 1
+				if m.V%2 == 0 {
+					c.SetPacketID(uint16(m.V%65535) + 1)
+					p.PacketID = uint16(m.V%65535) + 1
+				} else {
+					p.PacketID = 0 // left to the library: Encode must assign a non-zero identifier
+				}
 			}
 			if q == 0 {
 				p.PacketID = 0
@@ -255,6 +259,10 @@ func checkModify(c ModCase) (fail string, applied int) {
 			hist = append(hist, m.K)
 		}
 	}
+	autoID := p.Type == codec.PUBLISH && p.QoS > 0 && p.PacketID == 0
+	if autoID {
+		p.PacketID = 1 // placeholder of the right size; replaced by the assigned identifier below
+	}
 	want := codec.Encode(p)
 	if _, _, err := codec.Decode(want); err != nil {
 		return "", 0 // the modification left the strict-valid space (harness-side guard)
@@ -267,6 +275,14 @@ func checkModify(c ModCase) (fail string, applied int) {
 	n, err := lm.Encode(out)
 	if err != nil {
 		return fmt.Sprintf("%s decoded and then changed through %v: Encode failed: %v", name, hist, err), applied
+	}
+	if autoID {
+		id := lm.PacketID()
+		if id == 0 {
+			return fmt.Sprintf("%s decoded at QoS 0 and raised to QoS %d through %v without an explicit identifier: Encode assigned no packet identifier", name, p.QoS, hist), applied
+		}
+		p.PacketID = id
+		want = codec.Encode(p)
 	}
 	if n != len(want) || !bytes.Equal(out[:n], want) {
 		return fmt.Sprintf("%s decoded and then changed through %v: Encode wrote %d bytes differing at byte %d from the MQTT encoding of its fields (%d bytes)", name, hist, n, firstDiff(out[:min(n, len(want))], want), len(want)), applied
